@@ -267,6 +267,19 @@ class Ctx:
                                errors="replace")
         except subprocess.TimeoutExpired:
             raise Infra("driver timeout: %s" % " ".join(map(str, args)))
+        if p.returncode != 0 and not allow_fail and library_panic(p.stdout):
+            # the process died of a panic raised inside the library, in a goroutine of the library's own
+            # (the reader goroutine): nothing the harness could recover and turn into an event, but real
+            # behaviour of the code under test - a crash, which no property allows
+            os.makedirs(os.path.join(VERIF, "replays"), exist_ok=True)
+            h = hashlib.sha1(p.stdout[-20000:].encode()).hexdigest()[:12]
+            path = os.path.join(VERIF, "replays", "%s-libpanic-%s.txt" % (self.prop, h))
+            with open(path, "w") as f:
+                f.write("driver: %s\n\n" % " ".join(map(str, args)))
+                f.write(p.stdout[-200000:])
+            first = [l for l in p.stdout.splitlines() if l.startswith("panic:")]
+            self.violations.append((path, "the library panicked in one of its own goroutines and took the process down: %s" % (first[0][:200] if first else "panic")))
+            raise LibraryPanic(path)
         if p.returncode != 0 and not allow_fail:
             os.makedirs(os.path.join(VERIF, "replays"), exist_ok=True)
             with open(os.path.join(VERIF, "replays", "%s-driver-failure.txt" % self.prop), "w") as f:
@@ -453,6 +466,33 @@ def load_known():
         return json.load(f).get("findings", [])
 
 
+class LibraryPanic(Exception):
+    pass
+
+
+def library_panic(out):
+    """True if the output is a Go panic whose innermost non-runtime frame is library code, not harness code."""
+    lines = out.splitlines()
+    for i, l in enumerate(lines):
+        if not l.startswith("panic:") and not l.startswith("fatal error:"):
+            continue
+        # frames of the first goroutine listed after the panic line (the panicking one)
+        j = i + 1
+        while j < len(lines) and not lines[j].startswith("goroutine "):
+            j += 1
+        for k in range(j + 1, min(j + 60, len(lines))):
+            f = lines[k]
+            if not f or f[0] in " \t":
+                continue
+            if f.startswith("goroutine "):
+                break
+            if f.startswith(("panic(", "runtime.", "runtime/", "sync.", "sync/", "internal/", "reflect.")):
+                continue
+            return f.startswith("github.com/SAP/go-dblib/")
+        return False
+    return False
+
+
 def main(run_fn_by_prop):
     import argparse
     ap = argparse.ArgumentParser()
@@ -470,6 +510,8 @@ def main(run_fn_by_prop):
     rc = 2
     try:
         rc = run_fn_by_prop[a.prop](ctx)
+    except LibraryPanic:
+        rc = ctx.finish()
     except Infra as ex:
         print("INFRASTRUCTURE ERROR (exit 2, not a verdict): %s" % ex, flush=True)
         rc = 2
